@@ -185,7 +185,7 @@ def run(ctx, rep):
                                                              f"callee's first-element reads rely on")
     # ---- partial operations
     D = Discharger(ctx, contracts)
-    ro = rep.rule("B.partial", "every partial operation on the parse path is discharged by a guard idiom", floor=55)
+    ro = rep.rule("B.partial", "every partial operation on the parse path is discharged by a guard idiom", floor=30)
     rr = rep.rule("C.render", "every partial operation and format specification in __str__/__repr__ of classes reachable from Chart is "
                               "discharged", floor=3)
     classes = reachable_classes(ctx, "chartparse.chart.Chart")
